@@ -15,17 +15,18 @@ C == Cases[i]
 
 TxOf(r) == [seq |-> r.seq, coding |-> r.coding, orfStart |-> r.orfStart, orfEnd |-> r.orfEnd,
             startNF |-> r.startNF, endNF |-> r.endNF, sec |-> ToSet(r.sec)]
-VarsOf(vs) == {[start |-> vs[k].start, end |-> vs[k].end, ref |-> vs[k].ref, alt |-> vs[k].alt, id |-> vs[k].id] :
-                 k \in 1..Len(vs)}
 
 Canonical == CanonicalPool(C.proteome, C.cfg)
-Complete == UNION {VariantPeptides(TxOf(C.txs[k].tx), VarsOf(C.txs[k].vars), C.cfg, Canonical) : k \in 1..Len(C.txs)}
-Sound == UNION {VariantPeptidesSound(TxOf(C.txs[k].tx), VarsOf(C.txs[k].vars), C.cfg, Canonical) : k \in 1..Len(C.txs)}
+(* Complete uses the nested variants the tool's lookup considers (strictly inside the donor   *)
+(* segment); Sound allows all of them                                                        *)
+Complete == UNION {VariantPeptides(TxOf(C.txs[k].tx), CaseVarsX(C.txs[k], TRUE), C.cfg, Canonical) : k \in 1..Len(C.txs)}
+CompleteAll == UNION {VariantPeptides(TxOf(C.txs[k].tx), CaseVars(C.txs[k]), C.cfg, Canonical) : k \in 1..Len(C.txs)}
+Sound == UNION {VariantPeptidesSound(TxOf(C.txs[k].tx), CaseVars(C.txs[k]), C.cfg, Canonical) : k \in 1..Len(C.txs)}
 Observed == ToSet(C.observed)
 
 (* classification of a disagreement: is every offending peptide attributable to a   *)
 (* context-sensitive cleavage site (recorded finding)?                               *)
-Orfs == UNION {AllOrfs(TxOf(C.txs[k].tx), VarsOf(C.txs[k].vars)) : k \in 1..Len(C.txs)}
+Orfs == UNION {AllOrfs(TxOf(C.txs[k].tx), CaseVars(C.txs[k])) : k \in 1..Len(C.txs)}
 ExtraExplained(q) == \E p \in Orfs : RelaxedFragment(C.cfg, p, q)
 MissingExplained(q) == \E p \in Orfs : SensitiveFragment(C.cfg, p, q)
 
